@@ -1027,10 +1027,14 @@ def run_sysaction(case, v):
     calls = []
     acts = {}
 
+    links = {}        # a -> b: when action a runs it removes action b
+
     def action(a):
         if a not in acts:
             def f(*args, **kwargs):
                 calls.append((a, args, kwargs))
+                if a in links:
+                    R.remove(action(links[a]))
             acts[a] = f
         return acts[a]
     model = []        # [key, a, args, kwargs, once]; key = a or ('once', n)
@@ -1081,6 +1085,10 @@ def run_sysaction(case, v):
                         'defer_after_startup_not_immediate',
                         lambda: f'{where}: calls {calls}')
                 labels.add('defer_done')
+                b = links.get(a)      # the action ran: its link fires
+                if b is not None:
+                    model = [x for x in model if x[0] != b]
+                    loose.discard(b)
             else:
                 for e in model:
                     if e[0] == a:
@@ -1089,10 +1097,26 @@ def run_sysaction(case, v):
                         break
                 else:
                     model.append([a, a, tuple(args), {}, False])
+        elif name == 'link':
+            links[op[1]] = op[2]
         elif name == 'run':
             R.run()
             done = True
-            exp = [(e[1], e[2], e[3]) for e in model]
+            # actions currently registered: one removed by an earlier
+            # action of the same run is not run any more
+            exp, gone = [], set()
+            for e in list(model):
+                if e[0] in gone:
+                    continue
+                exp.append((e[1], e[2], e[3]))
+                b = links.get(e[1])
+                if b is not None and any(x[0] == b for x in model):
+                    gone.add(b)
+                    model = [x for x in model if x[0] != b]
+                    loose.discard(b)
+                    if any(x is not e for x in model):
+                        labels.add('removed_during_run')
+                        nontrivial = True
             got = list(calls)
             if len(model) >= 2 and removed:
                 nontrivial = True
@@ -1377,6 +1401,7 @@ def registry_strategy():
                st.tuples(st.just('remove'), a),
                st.tuples(st.just('run')),
                st.tuples(st.just('run'))]
+        ops.append(st.tuples(st.just('link'), a, a))
         if reg == 'CmdPeriod':
             ops.append(st.tuples(st.just('do_once'), a, args))
         if reg == 'StartUp':
